@@ -36,7 +36,7 @@ from .common import cbool, clist, copt, REPO, ROOT, PY
 PROP = "C07"
 SHARD = 400
 KINDS = {
-    "snap": dict(imports="From SS Require Import Base M_Snapshot.\nFrom SS.gen Require Import SrcFacts.",
+    "snap": dict(imports="From SS Require Import Base M_Snapshot.",
                  type="scase", mismatch="mismatches", nontrivial="count_nontrivial"),
     "life": dict(imports="From SS Require Import Base M_ThreadLife.", type="lcase",
                  mismatch="lmismatches", nontrivial="lcount_nontrivial"),
@@ -86,8 +86,10 @@ CONFIG = dict(
     timeout={"quick": 900, "thorough": 5400},
     NOTES=("The model's environment is indexed by (attempt, switch point) instead of a global step counter. "
            "While building this property the A-B-A defect F13 was found in the protocol and fixed in /repo (98ca0a6); "
-           "the model has the flags chk_hdr / chk_slot, instantiated from SrcFacts, so that removing either "
-           "re-check breaks C07_snapshot_consistent_or_rejected / C07_reads_in_bounds."),
+           "the model has the flags chk_hdr / chk_slot / hdr_atomic / blk_from_accepted; the theorems of C07.v are "
+           "instantiated on SrcFacts (a removed re-check breaks the proof), the case files are always evaluated at the "
+           "proven configuration (retries 10, all flags true), so a harmless refactor that confuses the fact extractor "
+           "yields the proof-level no-failing-input-found line only, never a bogus failing input."),
 )
 
 RET = "ret"
@@ -449,6 +451,7 @@ def run_schedule(run: SnapRun, sched, call):
         return local
 
     need_trace = any(p in ("P2", "P1b") for _a, p, _i, _m in sched) and p2line is not None
+    st["p2_drivable"] = p2line is not None
     _verif.hook = hook
     if need_trace:
         sys.settrace(tracer)
@@ -486,6 +489,8 @@ def run_snap(desc):
             obs = {"cls": 2, "lasti": 0, "stack": [], "retries": st["retries"]}
         else:
             obs = {"cls": 3, "lasti": 0, "stack": [], "retries": st["retries"], "exc": repr(exc)}
+        if not st["p2_drivable"]:
+            obs["nop2"] = True
     finally:
         run.close()
     return obs
@@ -514,7 +519,9 @@ def c_state(s, enc):
 def coq_snap(desc, obs):
     prog = build_program(desc["sites"])
     enc = _encoder(prog)
-    cfg = "(mkC %s %d SrcFacts.snapshot_retries %d SrcFacts.snapshot_header_check_adjacent SrcFacts.snapshot_slot_check_adjacent SrcFacts.snapshot_capture_to_check_no_call %s SrcFacts.snapshot_blocks_from_accepted)" % (
+    # the PROVEN configuration (retry bound 10, every structural flag true): the values the theorems of C07.v are
+    # stated for.  SrcFacts enters only through the proof obligations, never through the model the cases run on.
+    cfg = "(mkC %s %d 10 %d true true true %s true)" % (
         clist("(%d, %d, %d)" % (enc(a), enc(b), d) for a, b, d in prog["table"]), prog["stacksize"], enc(prog["ret_lasti"]),
         clist(str(enc(t)) for _a, _b, t, _d in prog["full"]))
     if desc["init"] == RET:
@@ -523,6 +530,8 @@ def coq_snap(desc, obs):
         w = "(mkW %s OnThread)" % c_state(prog["states"][desc["init"]], enc)
     ms = []
     for a, p, i, mv in desc["sched"]:
+        if p == "P2" and obs.get("nop2"):
+            continue      # the statement that stands for P2 was not recognised: the move could not be delivered
         pt = {"P1": "P1", "P1b": "P1b", "P2": "P2", "P5": "P5", "P6": "P6"}.get(p) or "(P3 %d)" % i
         m = "Ret" if mv in (RET, RETX) else "(Goto %s)" % c_state(prog["states"][mv], enc)
         ms.append("(%d, %s, %s)" % (a, pt, m))
